@@ -190,3 +190,8 @@ def perturb(c, rnd):
     else:
         c2["mode"] = rnd.choice(MODES)
     return c2
+
+
+# living-object histories built from the step-wise cases above (harness/living.py)
+import living  # noqa: E402
+living.install(globals())
